@@ -235,6 +235,8 @@ def run_impl(h):
     cur = {'events': [], 'deliv': []}
 
     def snap(tr):
+        if tr is None:          # an event delivered without a track (never for a correct tracker): keep it observable
+            return (-1, 0, ())
         return (int(tr.mmsi) if isinstance(tr.mmsi, int) else repr(tr.mmsi), _q(tr.last_updated, base),
                 tuple('n' if getattr(tr, n) is None else e.token(getattr(tr, n)) for n in e.attrs))
 
